@@ -633,7 +633,9 @@ def call_method(ex, recv, name, args, kw, st, where):
             if isinstance(t, Sym):
                 if not ex.entails(st, v_cmp(">=", t, 0)):
                     raise PyvcUnsupported("utcfromtimestamp of a possibly negative time")
-                yield Sym(IntT, coerce(t, IntT) % 86400), st
+                r = ex.uf_apply("SimTime.time_of_day", [t], IntT)
+                kq = ex.uf_apply("SimTime.day_number", [t], IntT)
+                yield r, st.assume(r.e >= 0, r.e < 86400, coerce(t, IntT) == 86400 * kq.e + r.e)
             else:
                 yield int(t) % 86400, st
             return
@@ -813,8 +815,10 @@ def call_method(ex, recv, name, args, kw, st, where):
             yield recv, st
             return
         if name == "as_datetime_time":
+            # seconds of day: t = 86400*k + r with 0 <= r < 86400 (linear form of t mod 86400)
             r = ex.uf_apply("SimTime.time_of_day", [recv], IntT)
-            yield r, st.assume(r.e >= 0, r.e < 86400, r.e == recv.e % 86400)
+            kq = ex.uf_apply("SimTime.day_number", [recv], IntT)
+            yield r, st.assume(r.e >= 0, r.e < 86400, recv.e == 86400 * kq.e + r.e)
             return
         if name == "as_iso_time":
             yield Opaque("iso"), st
